@@ -33,6 +33,41 @@ func init() {
 	reg("(time.Duration).Seconds", nil, func(st *State, fr *Frame, call ssa.CallInstruction, a []SVal) (SVal, bool) {
 		return App(SReal, "/", ToReal(st.scalar(a[0])), RealLit(1e9)), true
 	})
+	reg("time.Now", nil, func(st *State, fr *Frame, call ssa.CallInstruction, a []SVal) (SVal, bool) {
+		return st.clockNow(), true
+	})
+	reg("(time.Time).Add", nil, func(st *State, fr *Frame, call ssa.CallInstruction, a []SVal) (SVal, bool) {
+		return Add(st.scalar(a[0]), st.scalar(a[1])), true
+	})
+	reg("(time.Time).Sub", nil, func(st *State, fr *Frame, call ssa.CallInstruction, a []SVal) (SVal, bool) {
+		return Sub(st.scalar(a[0]), st.scalar(a[1])), true
+	})
+	reg("(time.Time).Before", nil, func(st *State, fr *Frame, call ssa.CallInstruction, a []SVal) (SVal, bool) {
+		return Lt(st.scalar(a[0]), st.scalar(a[1])), true
+	})
+	reg("(time.Time).After", nil, func(st *State, fr *Frame, call ssa.CallInstruction, a []SVal) (SVal, bool) {
+		return Gt(st.scalar(a[0]), st.scalar(a[1])), true
+	})
+	reg("(time.Time).Equal", nil, func(st *State, fr *Frame, call ssa.CallInstruction, a []SVal) (SVal, bool) {
+		return Eq(st.scalar(a[0]), st.scalar(a[1])), true
+	})
+	reg("(time.Time).IsZero", nil, func(st *State, fr *Frame, call ssa.CallInstruction, a []SVal) (SVal, bool) {
+		return Eq(st.scalar(a[0]), IntLit(0)), true
+	})
+	reg("time.Until", nil, func(st *State, fr *Frame, call ssa.CallInstruction, a []SVal) (SVal, bool) {
+		return Sub(st.scalar(a[0]), st.clockNow()), true
+	})
+	reg("time.Since", nil, func(st *State, fr *Frame, call ssa.CallInstruction, a []SVal) (SVal, bool) {
+		return Sub(st.clockNow(), st.scalar(a[0])), true
+	})
+	reg("github.com/google/uuid.New", nil, func(st *State, fr *Frame, call ssa.CallInstruction, a []SVal) (SVal, bool) {
+		id := st.fresh("uuid", SInt)
+		st.assume(Gt(id, IntLit(0)))
+		return id, true
+	})
+	reg("sort.Slice", []string{"E:*"}, func(st *State, fr *Frame, call ssa.CallInstruction, a []SVal) (SVal, bool) {
+		return st.sortSlice(a[0]), true
+	})
 	// --- errors ----------------------------------------------------------------
 	newErr := func(st *State, fr *Frame, call ssa.CallInstruction, a []SVal) (SVal, bool) {
 		return st.newErr("err"), true
@@ -214,6 +249,17 @@ func (st *State) specBuiltin(env *Env, e *Expr) (SVal, types.Type, bool) {
 	case "trunc":
 		a, _ := st.elab(env, e.Args[0])
 		return st.truncReal(ToReal(st.scalar(a))), tInt, true
+	case "contains":
+		a, _ := st.elab(env, e.Args[0])
+		b, _ := st.elab(env, e.Args[1])
+		sv, ok := a.(*SliceV)
+		if !ok {
+			st.unsupported("contains() needs a slice")
+		}
+		return Select(st.memberArr(st.view(env), sv), st.scalar(b)), tBool, true
+	case "isnotfound":
+		a, _ := st.elab(env, e.Args[0])
+		return st.errIs("notfound", st.scalar(a)), tBool, true
 	case "errcode":
 		a, _ := st.elab(env, e.Args[0])
 		return st.errCode(st.scalar(a)), tInt, true
@@ -227,5 +273,95 @@ func (st *State) specBuiltin(env *Env, e *Expr) (SVal, types.Type, bool) {
 		}
 		return IntLit(int64(n)), tInt, true
 	}
+	// table access: <table>.<column>(row), <table>.<column>$null(row), <table>.exists(row);
+	// create-builder access: cb.<table>.<column>(builder), cb.<table>.<column>$set(builder)
+	if st.e.ent != nil && strings.Contains(e.Name, ".") {
+		parts := strings.Split(e.Name, ".")
+		h := st.view(env)
+		if len(parts) == 2 {
+			if t := st.e.ent.Tables[parts[0]]; t != nil && len(e.Args) == 1 {
+				a, _ := st.elab(env, e.Args[0])
+				row := st.scalar(a)
+				switch {
+				case parts[1] == "exists":
+					return st.rowLive(h, t, row), tBool, true
+				case strings.HasSuffix(parts[1], "$null"):
+					return st.colNull(h, t, strings.TrimSuffix(parts[1], "$null"), row), tBool, true
+				default:
+					c := t.ByName[parts[1]]
+					if c == nil {
+						st.unsupported("no column %s in table %s", parts[1], parts[0])
+					}
+					return st.colGet(h, t, parts[1], row), sortType(c.Sort), true
+				}
+			}
+		}
+		if len(parts) == 3 && parts[0] == "cb" {
+			if t := st.e.ent.Tables[parts[1]]; t != nil && len(e.Args) == 1 {
+				a, _ := st.elab(env, e.Args[0])
+				r := st.scalar(a)
+				if strings.HasSuffix(parts[2], "$set") {
+					_, set := st.cbVal(h, t, r, strings.TrimSuffix(parts[2], "$set"))
+					return set, tBool, true
+				}
+				c := t.ByName[parts[2]]
+				if c == nil {
+					st.unsupported("no column %s in table %s", parts[2], parts[1])
+				}
+				v, _ := st.cbVal(h, t, r, parts[2])
+				return v, sortType(c.Sort), true
+			}
+		}
+	}
 	return nil, nil, false
+}
+
+func sortType(s Sort) types.Type {
+	switch s {
+	case SBool:
+		return tBool
+	case SStr:
+		return tString
+	case SReal:
+		return tReal
+	}
+	return tInt
+}
+
+// sortSlice: sort.Slice permutes the elements of the slice in place (the order produced is not modelled).
+func (st *State) sortSlice(x SVal) SVal {
+	iv, ok := x.(*IfaceV)
+	if !ok || iv.Conc == nil {
+		st.unsupported("sort.Slice of a value of unknown type")
+	}
+	sv, ok := iv.CVal.(*SliceV)
+	if !ok {
+		st.unsupported("sort.Slice of a non-slice")
+	}
+	ls := st.e.leaves(sv.Elem)
+	var memOld *Term
+	if len(ls) == 1 {
+		memOld = st.memberArr(st.heap, sv)
+	}
+	perm := st.fresh("perm", ArrS(SInt, SInt))
+	pinv := st.fresh("perminv", ArrS(SInt, SInt))
+	i := st.qv("i")
+	inR := func(i *Term) *Term { return And(Ge(i, IntLit(0)), Lt(i, sv.Len)) }
+	st.assume(Forall([]*Term{i}, Implies(inR(i), And(inR(Select(perm, i)), Eq(Select(pinv, Select(perm, i)), i))), Select(perm, i)))
+	st.assume(Forall([]*Term{i}, Implies(inR(i), And(inR(Select(pinv, i)), Eq(Select(perm, Select(pinv, i)), i))), Select(pinv, i)))
+	for _, l := range ls {
+		key := "E|" + typeKey(sv.Elem) + "|" + l.Path
+		s := ArrS(SInt, ArrS(SInt, l.Sort))
+		arr := st.heapGet(st.heap, key, s, l.IsRef)
+		old := Select(arr, sv.Base)
+		inner := st.fresh("sorted", ArrS(SInt, l.Sort))
+		j := st.qv("j")
+		st.assume(Forall([]*Term{j}, Eq(Select(inner, j), Ite(And(Ge(j, sv.Off), Lt(j, Add(sv.Off, sv.Len))), Select(old, Add(sv.Off, Select(perm, Sub(j, sv.Off)))), Select(old, j))), Select(inner, j)))
+		st.heapSet(key, Store(arr, sv.Base, inner))
+	}
+	if memOld != nil {
+		// a permutation has the same set of elements
+		st.assume(Eq(st.memberArr(st.heap, sv), memOld))
+	}
+	return nil
 }
